@@ -34,10 +34,12 @@ for _s, (_d, _u) in SLOTS.items():
     SLOT_BY_DIM.setdefault(_d, []).append(_s)
 
 # library entry points a quantity of a given dimension can be passed to (parameter table, DESIGN appendix A)
+ANY_DIM_CALLS = ["zero_same_weapon"]          # the argument hardly matters: what the call RETURNS is watched
 LIBCALLS = {
     "Distance": ["atmo_altitude", "wind_until", "weapon_sight_height", "weapon_twist", "dm_diameter", "dm_length",
                  "sight_scale", "gstep", "atmo_icao", "vacuum_altitude", "fire_range", "fire_step", "zero_distance",
-                 "danger_at", "danger_height", "sight_target_distance", "index_at_distance"],
+                 "danger_at", "danger_height", "sight_target_distance", "index_at_distance", "zero_same_weapon",
+                 "zero_same_weapon"],
     "Angular": ["shot_look", "shot_cant", "shot_relative", "wind_direction", "weapon_zero", "sight_click",
                 "danger_look", "sight_correction"],
     "Velocity": ["ammo_mv", "wind_velocity", "bcpoint_v", "powder_sens_v"],
@@ -132,6 +134,8 @@ def gen_op(rng, pool):
         foreign = gen.pick(rng, [u for u in UNIT_DIM if UNIT_DIM[u] != dim])
         return {"op": gen.pick(rng, ["foreign_rshift", "foreign_get_in", "foreign_lshift_read", "foreign_unit_call"]),
                 "q": i, "u": foreign, "back": gen.pick(rng, DIMS[dim])}
+    if rng.random() < 0.25:
+        return {"op": "libcall", "q": i, "call": gen.pick(rng, ANY_DIM_CALLS)}
     if LIBCALLS[dim]:
         return {"op": "libcall", "q": i, "call": gen.pick(rng, LIBCALLS[dim])}
     return {"op": "str", "q": i}
@@ -140,7 +144,19 @@ def gen_op(rng, pool):
 # ---------------------------------------------------------------------------------------------------------------
 # child side
 
-def _libcall(name, q):
+def _watch_returned(W, r):
+    """quantities the library RETURNS are quantities too: from now on they are watched like the pool"""
+    pb = lib.pb
+    if isinstance(r, pb.AbstractDimension) and len(W.extra) < 60 and not any(r is x[0] for x in W.extra):
+        d = type(r).__name__
+        try:
+            W.extra.append([r, d, fhex(float(r.raw_value)),
+                            {u: fhex(r.get_in(getattr(pb.Unit, u))) for u in DIMS[d]}, hash(r)])
+        except Exception:  # noqa
+            pass
+
+
+def _libcall(name, q, W=None):
     pb = lib.pb
     U = pb.Unit
     dm = lambda **kw: pb.DragModel(0.3, pb.TableG7, **kw)
@@ -157,6 +173,16 @@ def _libcall(name, q):
             return calc.fire(shot, U.Yard(200), q) if 10 <= feet <= 600 else "skipped"
         if kind == "zero_distance":
             return calc.barrel_elevation_for_target(shot, q) if 30 <= feet <= 1500 else "skipped"
+        if kind == "zero_same_weapon":
+            # the SAME weapon zeroed again and again (on one long-lived calculator); what each zeroing returned is kept
+            if W is None:
+                return "skipped"
+            if W.zero_rig is None:
+                W.zero_rig = (pb.Calculator(_config={"max_calc_step_size_feet": 16.0}), pb.Shot(pb.Weapon(U.Inch(2)), ammo()))
+            dist = q if (feet is not None and 30 <= feet <= 1500) else U.Yard(100 + 50 * (len(W.extra) % 4))
+            r = W.zero_rig[0].set_weapon_zero(W.zero_rig[1], dist)
+            _watch_returned(W, r)
+            return r
         hit = calc.fire(shot, U.Yard(300), U.Yard(30), extra_data=True)
         if kind == "danger_at":
             return hit.danger_space(q, U.Meter(1)) if 0 <= q.raw_value <= 300 * 36 else "skipped"
@@ -171,6 +197,7 @@ def _libcall(name, q):
     table = {
         "fire_range": lambda: solver("fire_range"), "fire_step": lambda: solver("fire_step"),
         "zero_distance": lambda: solver("zero_distance"), "danger_at": lambda: solver("danger_at"),
+        "zero_same_weapon": lambda: solver("zero_same_weapon"),
         "danger_height": lambda: solver("danger_height"), "danger_look": lambda: solver("danger_look"),
         "index_at_distance": lambda: solver("index_at_distance"),
         "sight_target_distance": lambda: pb.Sight("SFP", U.Meter(100), U.Mil(0.1), U.Mil(0.1)).get_adjustment(
@@ -231,6 +258,8 @@ class _World:
         self.dict = {}
         self.dict_members = []
         self.holders = []          # objects built by library calls: they keep references to pool quantities
+        self.extra = []            # quantities RETURNED by library calls: [q, dim, raw hex, readings, hash]
+        self.zero_rig = None
         self.two_tasks = sum(1 for r in spec["roles"].values() if r == "client") > 1 or \
             any(r == "admin" for r in spec["roles"].values())
 
@@ -330,7 +359,7 @@ def _do(op, W, viol_sink):
         return ("foreign", "number")
     if k == "libcall":
         try:
-            W.holders.append(_libcall(op["call"], q))
+            W.holders.append(_libcall(op["call"], q, W))
             if len(W.holders) > 40:
                 W.holders.pop(0)
             return ("libcall", "ok")
@@ -366,6 +395,17 @@ def _check_all(W, viol_sink, opkind):
             viol_sink("hash.changed_with_display_unit", opkind, d,
                       f"hash(q{i}) differs from its value at construction (display unit now {q.units!r})")
             W.h0[i] = hq                               # report once per change
+    for k, (q, d, rh, readings, h0) in enumerate(W.extra):
+        try:
+            if fhex(float(q.raw_value)) != rh:
+                viol_sink("magnitude.changed", opkind, d, f"a quantity returned earlier by the library (#{k}, {d}) changed "
+                                                          f"its magnitude: {q.raw_value!r}, was {float.fromhex(rh)!r}")
+                W.extra[k][2] = fhex(float(q.raw_value))
+            elif hash(q) != h0:
+                viol_sink("hash.changed_with_display_unit", opkind, d, f"hash of a returned quantity (#{k}) changed")
+                W.extra[k][4] = hash(q)
+        except Exception as e:  # noqa
+            viol_sink("read.raises", opkind, d, f"returned quantity #{k}: {type(e).__name__}")
     # equal quantities hash equally (within a dimension)
     for i in range(len(W.q)):
         for j in range(i + 1, len(W.q)):
